@@ -108,10 +108,54 @@ def examine(sx, outs, allowed_syms):
     return out
 
 
+def helpers_of_covered(model):
+    """module-level functions, and private methods, whose every caller is a function analysed by another property's rules (or
+    such a helper itself): they are evaluated there, inlined into their callers (e.g. private helpers the export function is
+    split into).  Calls are resolved narrowly: a plain name to a module function, `self.x(...)` / `cls.x(...)` / `Class.x(...)`
+    to a private member of the caller's own class."""
+    units = []          # (qualname, class or None, node)
+    for fname, (mod, fn) in model.functions.items():
+        units.append((fname, None, fn))
+    for cname, ci in model.classes.items():
+        for mem in ci.all_members():
+            units.append((mem.qualname, cname, mem.node))
+    callers = {}
+    for qual, cname, fn in units:
+        for x in ast.walk(fn):
+            if not isinstance(x, ast.Call):
+                continue
+            tgt = None
+            if isinstance(x.func, ast.Name) and x.func.id in model.functions:
+                tgt = x.func.id
+            elif isinstance(x.func, ast.Attribute) and isinstance(x.func.value, ast.Name) and cname is not None \
+                    and x.func.value.id in ('self', 'cls', cname) and x.func.attr.startswith('_') and not x.func.attr.endswith('__'):
+                mem = model.find_member(cname, x.func.attr)
+                tgt = mem.qualname if mem is not None else None
+            if tgt is not None and tgt != qual:
+                callers.setdefault(tgt, set()).add(qual)
+    out = {}
+    changed = True
+    while changed:
+        changed = False
+        for qual, cs in callers.items():
+            if qual in out or qual in COVERED_ELSEWHERE:
+                continue
+            if cs and all(c in COVERED_ELSEWHERE or c in out for c in cs):
+                why = sorted(COVERED_ELSEWHERE.get(c) or out.get(c) for c in cs)[0]
+                out[qual] = f'helper of {sorted(cs)[0]}: {why}'
+                changed = True
+    return out
+
+
+def covered_elsewhere(model):
+    return {**helpers_of_covered(model), **COVERED_ELSEWHERE}
+
+
 def sweep(model, rep):
     covered = set()
     notrun = {}
     n_fn = 0
+    COVERED_ELSEWHERE = covered_elsewhere(model)
     for cname, ci in sorted(model.classes.items()):
         if model.is_quantity(cname) or cname == 'UnitBase':
             continue          # the units package itself is decided by C05/C06 with symbolic operand units
@@ -369,6 +413,7 @@ def hash_keys(model, rep):
 
 
 def coverage(model, rep, covered, notrun):
+    COVERED_ELSEWHERE = covered_elsewhere(model)
     total = 0
     uncovered = []
     for mod, tree in sorted(model.trees.items()):
